@@ -120,6 +120,10 @@ def gen_program(rng, builds, wire_safe_only: bool, verbs_body_ok: bool, allow_ur
                 continue
             used_params.add(name)
             steps.append(["_parameter", hx(f"{name}={_word(rng, 1, 8)}".encode())])
+    if rng.random() < 0.12 and "host" not in used_headers:
+        # `header "Host" "..."` inside the client block is stored as its own step kind
+        used_headers.add("host")
+        steps.append(["_hostheader", hx(f"Host: {_word(rng, 3, 10)}.example.org".encode())])
     body_used = False
     uri_used = False
     for b in builds:
